@@ -646,6 +646,22 @@ func checkTransformReqs(p *core.Prog, r *core.Result, tr *ssa.Function) {
 		})
 		r.Check(okSkip, "R11.2", fmt.Sprintf("internal/mvs.transformReqs#fresh-only-for-new-projects-%d", i+1), p.InstrPos(mu), "fresh names are generated only for projects that had no name before", "a project that already has a requirement name can receive an additional fresh name")
 	}
+	// fresh names are chosen only after every existing name has been registered: no fresh-name store can be
+	// followed by a keep-existing store
+	for i, f := range updates {
+		fromOldF := core.DependsOn(f.Key, core.SliceOpts{}, func(v ssa.Value) bool { lk, ok := v.(*ssa.Lookup); return ok && lk.X == oldProjects })
+		if fromOldF {
+			continue
+		}
+		late := false
+		for _, k := range updates {
+			fromOldK := core.DependsOn(k.Key, core.SliceOpts{}, func(v ssa.Value) bool { lk, ok := v.(*ssa.Lookup); return ok && lk.X == oldProjects })
+			if fromOldK && core.InstrReaches(f, k) {
+				late = true
+			}
+		}
+		r.Check(!late, "R11.3", fmt.Sprintf("internal/mvs.transformReqs#fresh-after-all-existing-%d", i+1), p.InstrPos(f), "fresh names are chosen after all existing names are registered, so the uniqueness lookup sees every existing name", "an existing requirement name can be registered after a fresh name was chosen: the uniqueness lookup did not see it, and the existing entry overwrites the new requirement of the same name (the new requirement is silently lost)")
+	}
 	r.Check(keepSeen && freshSeen, "R11.2", "internal/mvs.transformReqs#both-passes", p.Pos(tr.Pos()), "both the keep-existing-names pass and the fresh-names pass are present", "transformReqs lacks the pass that keeps existing names or the pass that names new projects")
 }
 
